@@ -13,7 +13,7 @@ def load(p):
     except Exception: return {}
 
 def main():
-    rows = {1: [], 2: [], 3: [], 4: [], 5: [], 6: []}
+    rows = {1: [], 2: [], 3: [], 4: [], 5: [], 6: [], 7: []}
     for d in sorted(os.listdir(os.path.join(ROOT, "seeded"))):
         p = os.path.join(ROOT, "seeded", d)
         if not os.path.isdir(p): continue
@@ -32,7 +32,7 @@ def main():
         for f in sorted(glob.glob(os.path.join(p, "*replay*.json"))):
             r = load(f)
             if r: replays[os.path.basename(f)] = {"property": r.get("property"), "case": (r.get("case") or "")[:300], "why": r.get("why")}
-        rnd = 2 if re.search(r"-2[AB]$", d) else 3 if re.search(r"-3[AB]$", d) else 4 if re.search(r"-4[AB]$", d) else 5 if re.search(r"-5[AB]$", d) else 6 if re.search(r"-6[AB]$", d) else 1
+        rnd = 2 if re.search(r"-2[AB]$", d) else 3 if re.search(r"-3[AB]$", d) else 4 if re.search(r"-4[AB]$", d) else 5 if re.search(r"-5[AB]$", d) else 6 if re.search(r"-6[AB]$", d) else 7 if re.search(r"-7[AB]$", d) else 1
         own = am.get("property", d.split("-")[0])
         meta = {"seed": d, "round": rnd, "property_broken": own, "summary": am.get("summary"),
                 "needs_to_manifest": am.get("needs_to_manifest"), "files_touched": am.get("files_touched"),
@@ -45,7 +45,7 @@ def main():
                 "missed_before_strengthening_by": sorted(k for k, v in before.items() if v["violations"] == 0)}
         json.dump(meta, open(os.path.join(p, "meta.json"), "w"), indent=1)
         rows[rnd].append(meta)
-    for rnd in (1, 2, 3, 4, 5, 6):
+    for rnd in (1, 2, 3, 4, 5, 6, 7):
         print("\n### Round %d (%d changes)\n" % (rnd, len(rows[rnd])))
         print("| seed | breaks | change (one line) | needs | caught by | first missed by |\n|---|---|---|---|---|---|")
         for m in rows[rnd]:
